@@ -2,10 +2,11 @@
 """apply every seeded change to /repo in turn, run the quick checks of the claimed properties that could be affected,
 record which checks report it (meta.json: caught_by), and restore /repo.  Usage: seed_matrix.py [seed ids...]"""
 import os, sys, json, subprocess
-sys.path.insert(0, '/verif')
+sys.path.insert(0, os.environ.get('VERIF_ROOT', '/verif'))
 import props
 S = '/verif/seeded'
 REPO = os.environ.get('VERIF_REPO', '/repo')
+ROOT = os.environ.get('VERIF_ROOT', '/verif')     # where check.py is run from (a snapshot of /verif while /verif is being edited)
 ids = sys.argv[1:] or sorted(os.listdir(S))
 assert subprocess.run(['git', '-C', REPO, 'status', '--porcelain'], capture_output=True, text=True).stdout.strip() == '', "/repo not clean"
 for sid in ids:
@@ -17,7 +18,7 @@ for sid in ids:
     try:
         caught, undec = [], []
         for pid in sorted(props.PROPS):
-            o = subprocess.run(['./check.py', pid, '--tier', 'quick'], cwd='/verif', capture_output=True, text=True)
+            o = subprocess.run(['./check.py', pid, '--tier', 'quick'], cwd=ROOT, capture_output=True, text=True)
             vl = [l for l in o.stdout.split('\n') if l.startswith('VIOLATION')]
             if o.returncode == 1 and vl:
                 caught.append(dict(check=pid, lines=vl))
